@@ -56,6 +56,18 @@ def main(tier, replay, t0):
                         viol.append(Violation(rule, mv, "struct %s has fields %s, WGSL members "
                                               "(non-builtin, in order) are %s" % (s, got, want),
                                               dict(base, struct=sd.wgsl())))
+                    members = {m["name"]: m for m in sd.data_members()}
+                    for f in it["fields"]:
+                        m = members.get(f["name"])
+                        if m is None or (m["ty"][0] == "a" and m["ty"][2] is None):
+                            continue
+                        if any("runtime" in a for a in f["attrs"]) or \
+                                (f.get("ty") or "").replace(" ", "").startswith("Vec<"):
+                            viol.append(Violation("fixed-member-became-runtime-sized", mv,
+                                                  "%s.%s is %s in WGSL (fixed size) but the Rust "
+                                                  "field is %s %s" % (s, f["name"], W.wgsl(m["ty"]),
+                                                                      f["attrs"], f.get("ty")),
+                                                  dict(base, struct=sd.wgsl())))
                     if W.has_runtime_array(sd) and it["fields"]:
                         last = it["fields"][-1]
                         if not any("size" in a and "runtime" in a for a in last["attrs"]):
@@ -68,6 +80,14 @@ def main(tier, replay, t0):
                     import re as _re
                     for d in probes.unexpected_rejection(camp, c.id, x["id"]):
                         m = _re.search(r"cannot find type `([^`]+)`", d.get("message") or "")
+                        if m and m.group(1) in spec.structs and \
+                                m.group(1) in spec.emitted_structs():
+                            viol.append(Violation("nested-struct-undefined", mv,
+                                                  "a field refers to struct `%s`, which has to be "
+                                                  "emitted (it is reachable from a module-scope "
+                                                  "variable) but is not defined in the module" %
+                                                  m.group(1), dict(base, rustc=d.get("message"))))
+                            break
                         if m and m.group(1) not in spec.structs:
                             viol.append(Violation("field-type-undefined", mv,
                                                   "a field is declared with the type `%s`, which "
